@@ -17,3 +17,6 @@ def define(M):
     M("C11", "cmap_rebuilt_from_new_names", "Lib/ufo2ft/postProcessor.py",
       "        newGlyphOrder = [rename_map.get(n, n) for n in otf.getGlyphOrder()]\n        otf.setGlyphOrder(newGlyphOrder)",
       "        newGlyphOrder = sorted(rename_map.get(n, n) for n in otf.getGlyphOrder())\n        newGlyphOrder.remove('.notdef'); newGlyphOrder.insert(0, '.notdef')\n        otf.setGlyphOrder(newGlyphOrder)")
+    # the repaired defect (ae757d5) put back: '.notdef' renamed like any other glyph
+    M("C11", "notdef_renamed_by_lib_names", "Lib/ufo2ft/postProcessor.py",
+      '            if name == ".notdef":', '            if name == ".notdef-never":')
